@@ -124,7 +124,11 @@ func genC02(tier string, rng *RNG, w *CaseWriter) {
 	leafKeys := []string{"rsa2048a", "rsa3072", "rsa4096", "ec256b", "ec384", "ec521", "rsa1024", "rsa2040", "rsa2050", "ec224", "ed25519"}
 	chains := map[string][]*x509.Certificate{}
 	for _, kn := range leafKeys {
-		b := basePlan(2, "cs", kn).build()
+		bp := basePlan(2, "cs", kn)
+		// every leaf of the grid carries the SAME subject key identifier (an issuer chooses it freely): the key, not an
+		// identifier, dictates the algorithm
+		bp.certs[0].spec.SKI = []byte("one-ski-for-all-leaves")
+		b := bp.build()
 		chains[kn] = b.xs
 		leaf := b.xs[0]
 		ext := int64(-1)
